@@ -202,6 +202,9 @@ class Flow:
                 self.closure_effects(body, t, at, last)
             self.follow(body, t["dst"]["l"], depth + 1, what)
             return
+        if last == "take" and self.only_counted(body, t["dst"]["l"]):
+            self.add(False, "take-then-count", body, at, "take(n) followed only by count(): min(n, number of elements) whatever the order")
+            return
         if last in ADAPT_SENSITIVE:
             self.add(True, "adaptor-" + last, body, at, "%s over an unordered iteration depends on hash order" % last)
             return
@@ -259,6 +262,29 @@ class Flow:
             self.follow(cb, ai + 1, depth + 1, what)
             return
         self.add(True, "unknown-consumer", body, at, "iterator consumed by %s (not in the consumer table)" % n)
+
+    def only_counted(self, body, l, depth=0):
+        """The iterator held in local l is consumed by count() and by nothing else."""
+        if depth > 6:
+            return False
+        used = False
+        for (bb, idx, node) in uses_of_local(body, l):
+            if bb not in body.reach:
+                continue
+            if idx >= 0:
+                if node["k"] == "assign" and node["rv"]["k"] == "use" and not node["dst"]["p"]:
+                    if not self.only_counted(body, node["dst"]["l"], depth + 1):
+                        return False
+                    used = True
+                    continue
+                return False
+            if node["k"] == "drop":
+                continue
+            if node["k"] == "call" and callee_name(node) in ("std::iter::Iterator::count",):
+                used = True
+                continue
+            return False
+        return used
 
     # -- loops ----------------------------------------------------------------------------------
     def own_loop(self, body, bb, t):
